@@ -24,6 +24,8 @@ type model interface {
 }
 
 type Engine struct {
+	calleeNames map[string]bool
+	dotImports map[string][]*types.Package
 	repo      string
 	fset      *token.FileSet
 	prog      *ssa.Program
@@ -91,6 +93,26 @@ func loadEngine(repo string, patterns []string, overlay map[string][]byte, stdSp
 		return nil, fmt.Errorf("package errors: %s", strings.Join(errs, "; "))
 	}
 	e.pkgs = pkgs
+	// dot imports per package (names of such packages are visible unqualified in contracts too)
+	e.dotImports = map[string][]*types.Package{}
+	for _, p := range pkgs {
+		for _, f := range p.Syntax {
+			for _, im := range f.Imports {
+				if im.Name != nil && im.Name.Name == "." {
+					path := strings.Trim(im.Path.Value, "\"")
+					if ip := p.Imports[path]; ip != nil && ip.Types != nil {
+						dup := false
+						for _, q := range e.dotImports[p.Types.Path()] {
+							dup = dup || q == ip.Types
+						}
+						if !dup {
+							e.dotImports[p.Types.Path()] = append(e.dotImports[p.Types.Path()], ip.Types)
+						}
+					}
+				}
+			}
+		}
+	}
 	prog, _ := ssautil.Packages(pkgs, ssa.InstantiateGenerics|ssa.GlobalDebug)
 	prog.Build()
 	e.prog = prog
@@ -487,9 +509,14 @@ func (ft *FT) exitObligations(pos token.Pos, st *State, guard Term, results []Te
 	for _, e := range clauses {
 		t, err := ctx.boolExpr(e.Expr)
 		if err != nil {
+			if e.WhereDefined && strings.Contains(err.Error(), "unknown identifier") {
+				e.skipped = err.Error()
+				continue
+			}
 			ft.errf("ensures %q: %v", e.Text, err)
 			continue
 		}
+		e.sites++
 		ft.oblige(kind, token.NoPos, e.Text+" @ "+ft.srcText(pos), guard, t, true)
 	}
 	if ft.con.HasMod && !ft.con.Trusted {
@@ -609,8 +636,44 @@ func (e *Engine) verifyFunc(key string, sem chan struct{}) *FuncResult {
 		return fr
 	}
 	ft := e.newFT(fn, con)
+	if con != nil {
+		for _, c := range con.Checks {
+			c.sites = 0
+		}
+		for _, c := range con.AssertAt {
+			c.sites = 0
+		}
+		for _, cs := range con.CallPre {
+			for _, c := range cs {
+				c.sites = 0
+			}
+		}
+	}
 	ft.run()
 	fr.Errors = append(fr.Errors, ft.errs...)
+	if con != nil {
+		for n, cs := range con.CallPre {
+			for _, c := range cs {
+				if c.WhereDefined && c.sites == 0 {
+					fr.Errors = append(fr.Errors, fmt.Sprintf("callpreif %s %q applies at no call site (%s)", n, c.Text, c.skipped))
+				}
+				if c.sites == 0 && !e.calleeKnown(n) {
+					// vacuity guard: a call-site precondition keyed by a name no function has checks nothing
+					fr.Errors = append(fr.Errors, fmt.Sprintf("callpre %s %q: no function of that name in the program (contract typo?)", n, c.Text))
+				}
+			}
+		}
+		for _, c := range con.AssertAt {
+			if c.sites == 0 {
+				fr.Errors = append(fr.Errors, fmt.Sprintf("assertat %q#%d %q: no such source line in the function", c.Loc, c.Nth, c.Text))
+			}
+		}
+		for _, c := range con.Checks {
+			if c.WhereDefined && c.sites == 0 {
+				fr.Errors = append(fr.Errors, fmt.Sprintf("checkif %q applies at no return (%s)", c.Text, c.skipped))
+			}
+		}
+	}
 	if con != nil && con.Functional {
 		fr.Errors = append(fr.Errors, e.checkFunctional(fn)...)
 	}
@@ -712,4 +775,62 @@ func pkgKey(p *types.Package) string {
 		path = path[i+1:]
 	}
 	return path
+}
+
+// calleeKnown: name is the callName of some function, method or interface method of the loaded program.
+func (e *Engine) calleeKnown(name string) bool {
+	if e.funcs[name] != nil {
+		return true
+	}
+	if e.calleeNames == nil {
+		e.calleeNames = map[string]bool{}
+		for fn := range ssautil.AllFunctions(e.prog) {
+			for _, b := range fn.Blocks {
+				for _, ins := range b.Instrs {
+					if c, ok := ins.(ssa.CallInstruction); ok {
+						ft := &FT{eng: e, fn: fn}
+						n, _, _ := ft.callName(c.Common())
+						e.calleeNames[n] = true
+					}
+				}
+			}
+		}
+	}
+	if e.calleeNames[name] {
+		return true
+	}
+	// library functions and methods: resolve the name through the type information of the imported packages
+	lookupPkg := func(n string) *types.Package { return e.pkgByName[n] }
+	if strings.HasPrefix(name, "(") {
+		i := strings.Index(name, ").")
+		if i < 0 {
+			return false
+		}
+		recv, meth := strings.TrimPrefix(name[1:i], "*"), name[i+2:]
+		j := strings.LastIndex(recv, ".")
+		if j < 0 {
+			return false
+		}
+		p := lookupPkg(recv[:j])
+		if p == nil {
+			return false
+		}
+		tn, ok := p.Scope().Lookup(recv[j+1:]).(*types.TypeName)
+		if !ok {
+			return false
+		}
+		obj, _, _ := types.LookupFieldOrMethod(types.NewPointer(tn.Type()), true, p, meth)
+		if obj == nil {
+			obj, _, _ = types.LookupFieldOrMethod(tn.Type(), true, p, meth)
+		}
+		_, isFunc := obj.(*types.Func)
+		return isFunc
+	}
+	if j := strings.Index(name, "."); j > 0 && !strings.Contains(name, "$") {
+		if p := lookupPkg(name[:j]); p != nil {
+			_, isFunc := p.Scope().Lookup(name[j+1:]).(*types.Func)
+			return isFunc
+		}
+	}
+	return false
 }
